@@ -477,6 +477,23 @@ void apply_patch(Json& target, const Json& patch, std::error_code& ec)
                 return;
             }
 
+            // RFC 6902 4.4: the "from" location must not be a proper prefix of the "path" location
+            {
+                auto it_from_token = from_pointer.begin();
+                auto it_path_token = location.begin();
+                while (it_from_token != from_pointer.end() && it_path_token != location.end() && *it_from_token == *it_path_token)
+                {
+                    ++it_from_token;
+                    ++it_path_token;
+                }
+                if (it_from_token == from_pointer.end() && it_path_token != location.end())
+                {
+                    ec = jsonpatch_errc::move_failed;
+                    unwinder.state = jsoncons::jsonpatch::detail::state_type::abort;
+                    return;
+                }
+            }
+
             Json val = jsonpointer::get(target, from_pointer, local_ec);
             if (local_ec)
             {
